@@ -19,7 +19,7 @@ Proof.
   unfold grid_new in E0, E1. bind_inv E0. inv E0. bind_inv E1. inv E1.
   unfold sub16 in E. destruct (N.leb_spec 1 rows); [|lia]. inv E.
   split; [|cbn; auto].
-  split; [exact Hok|]. split; [exact Wf|]. cbn. auto.
+  split; [exact (parser_ok_scr _ Hok)|]. split; [exact Wf|]. cbn. auto.
 Qed.
 
 (* C01 in API terms: S is any screen reached from Parser::new by process / write / set_size /
